@@ -113,6 +113,13 @@ impl Tcp {
         })
     }
 
+    /// Offset of the payload in the raw data: the header start plus the
+    /// header length given by the data offset (never less than the basic header)
+    pub fn payload_offset(&self) -> usize {
+        let hdr_len = std::cmp::max(self.header.borrow().data_off as usize * 4, TCP_HEADER_SIZE);
+        self.offset - TCP_HEADER_SIZE + hdr_len
+    }
+
     pub fn get_source_port(&self) -> Rc<Object> {
         Rc::new(Object::Integer(self.header.borrow().srcport as i64))
     }
